@@ -335,4 +335,42 @@ theorem service_new_batch_height_separated (h1 h2 : Int) (ctx rest k s : ByteArr
   subst hk' hs'
   exact height_separates _ h1 h2 _ rest a0 a1 b0 b1 hp
 
+/-- both directions for the random request queue: the prefix iteration of height `h2` meets the key of a request filed
+under `h1` exactly when `h1 = h2` (what `BeginBlocker`'s "each due request is processed, and only those" rests on) -/
+theorem random_queue_in_subspace_iff (h1 h2 : Int) (id k s : ByteArray) (a0 : 0 ≤ h1) (a1 : h1 < 9223372036854775808)
+    (b0 : 0 ≤ h2) (b1 : h2 < 9223372036854775808) (hk : RandomKeyRequestQueue h1 id = some k)
+    (hs : RandomKeyRequestQueueSubspace h2 = some s) : (∃ rest, k = s ++ rest) ↔ h1 = h2 := by
+  constructor
+  · rintro ⟨rest, hp⟩
+    exact random_queue_height_separated h1 h2 id rest k s a0 a1 b0 b1 hk hs hp
+  · rintro rfl
+    have := random_queue_in_subspace h1 id
+    rw [hk, hs] at this
+    exact ⟨id, Option.some.inj this⟩
+
+/-- the same for the farm's active-pool queue (`IteratorExpiredPool` of the EndBlocker) -/
+theorem farm_active_in_subspace_iff (h1 h2 : Int) (pool : String) (k s : ByteArray) (a0 : 0 ≤ h1)
+    (a1 : h1 < 9223372036854775808) (b0 : 0 ≤ h2) (b1 : h2 < 9223372036854775808)
+    (hk : FarmKeyActiveFarmPool h1 pool = some k) (hs : FarmPrefixActiveFarmPool h2 = some s) :
+    (∃ rest, k = s ++ rest) ↔ h1 = h2 := by
+  constructor
+  · rintro ⟨rest, hp⟩
+    exact farm_active_height_separated h1 h2 pool rest k s a0 a1 b0 b1 hk hs hp
+  · rintro rfl
+    have := farm_active_in_subspace h1 pool
+    rw [hk, hs] at this
+    exact ⟨_, Option.some.inj this⟩
+
+/-- … and for the HTLC expiry queue (`BeginBlocker` refunds exactly the contracts filed under the current height) -/
+theorem htlc_expired_in_subspace_iff (h1 h2 : Nat) (id k s : ByteArray) (a1 : h1 < 18446744073709551616)
+    (b1 : h2 < 18446744073709551616) (hk : HtlcGetHTLCExpiredQueueKey h1 id = some k)
+    (hs : HtlcGetHTLCExpiredQueueSubspace h2 = some s) : (∃ rest, k = s ++ rest) ↔ h1 = h2 := by
+  constructor
+  · rintro ⟨rest, hp⟩
+    exact htlc_expired_height_separated h1 h2 id rest k s a1 b1 hk hs hp
+  · rintro rfl
+    have := htlc_expired_in_subspace h1 id
+    rw [hk, hs] at this
+    exact ⟨id, Option.some.inj this⟩
+
 end Irismod.Props.TieKeys
